@@ -121,9 +121,12 @@ func checkC05(c *Ctx) {
 			}
 			trues++
 			eq := false
-			for k, val := range p.FactsAt(len(p.Blocks) - 1) {
-				if k.op == token.EQL && k.y != nil && val && (paramIndex(fn, k.x) == 1 || paramIndex(fn, k.y) == 1) {
-					eq = true
+			for _, pr := range knownEqual(p, len(p.Blocks)-1) {
+				for _, side := range pr {
+					root, _ := accessPath(side)
+					if paramIndex(fn, side) == 1 || paramIndex(fn, root) == 1 {
+						eq = true
+					}
 				}
 			}
 			if !eq {
@@ -406,8 +409,20 @@ func c05R4(c *Ctx) {
 				}
 				if ex, ok := ins.(*ssa.Extract); ok && ex.Index == 1 {
 					if lk, ok := ex.Tuple.(*ssa.Lookup); ok && lk.CommaOk {
-						if v, known := boolOnPath(p, ex); known && v {
-							lookups++
+						if v, known := boolOnPath(p, ex); known && v && paramIndex(rm, lk.Index) == 2 {
+							// the entry found under the key argument, in the map stored under the user argument
+							inner := strip(lk.X)
+							if e0, ok := inner.(*ssa.Extract); ok && e0.Index == 0 {
+								if l1, ok := e0.Tuple.(*ssa.Lookup); ok && l1.CommaOk && paramIndex(rm, l1.Index) == 1 {
+									if okv := extractIdx(l1, 1); okv != nil {
+										if v1, known1 := boolOnPath(p, okv); known1 && v1 {
+											lookups = 2
+										}
+									}
+								}
+							} else if l1, ok := inner.(*ssa.Lookup); ok && !l1.CommaOk && paramIndex(rm, l1.Index) == 1 {
+								lookups = 2 // m[user][key]: a missing user yields a nil map, whose lookup reports !ok
+							}
 						}
 					}
 				}
